@@ -143,6 +143,9 @@ pub struct Episode {
     /// QR codes built before the tasks start and rendered concurrently through `Arc<QRCode>`
     pub shared_qrs: Vec<BuilderScript>,
     pub tasks: Vec<Vec<OpSpec>>,
+    /// generator patterns this episode contains (reach measure only; the run does not read it)
+    #[serde(default, skip_serializing_if = "Vec::is_empty")]
+    pub patterns: Vec<String>,
 }
 
 mod hexvec {
